@@ -12,6 +12,7 @@ import (
 	"github.com/goghcrow/yae"
 	"github.com/goghcrow/yae/closure"
 	"github.com/goghcrow/yae/compiler"
+	"github.com/goghcrow/yae/fun"
 	"github.com/goghcrow/yae/interp"
 	"github.com/goghcrow/yae/types"
 	"github.com/goghcrow/yae/val"
@@ -88,11 +89,12 @@ func (t *Tracer) Snapshot() []string {
 
 // Engine is one yae.Expr instance with harness functions registered.
 type Engine struct {
-	E     *yae.Expr
-	Tr    *Tracer
-	Funs  map[string]*val.Val // harness function values by Impl key
-	Be    Backend
-	tyctx *TyCtx
+	E        *yae.Expr
+	Tr       *Tracer
+	Funs     map[string]*val.Val // harness function values by Impl key
+	Be       Backend
+	tyctx    *TyCtx
+	regOrder []string // Impl keys of the registered harness functions, in registration order
 	// Shared: names whose values are built with repeated sub-values being one shared value
 	Shared map[string]bool
 }
@@ -110,6 +112,7 @@ func NewEngine(be Backend, extra []ref.FunSig) *Engine {
 	for _, f := range extra {
 		fv := MakeHarnessFun(f, en.Tr)
 		en.Funs[f.Impl] = fv
+		en.regOrder = append(en.regOrder, f.Impl)
 		en.E.RegisterFun(fv)
 	}
 	return en
@@ -123,6 +126,25 @@ func TypeEnv(env map[string]*model.Type) *types.Env {
 		te.Put(n, c.To(env[n]))
 	}
 	return te
+}
+
+// ValEnvWithFuns is ValEnv with the built-in and the engine's harness functions registered in the
+// run-time environment itself: what a closure obtained from Expr.CompileExpr (instead of the
+// facade's Callable) needs when the back end resolves functions at evaluation time (interp).
+func (en *Engine) ValEnvWithFuns(env map[string]*model.Val) *val.Env {
+	ve := en.ValEnv(env)
+	for _, f := range fun.BuiltIn() {
+		ve.RegisterFun(f)
+	}
+	names := make([]string, 0, len(en.Funs))
+	for n := range en.Funs {
+		names = append(names, n)
+	}
+	sortStrings(names)
+	for _, n := range en.regOrder {
+		ve.RegisterFun(en.Funs[n])
+	}
+	return ve
 }
 
 // TypeEnvShared is TypeEnv with identical (same written order) composite sub-terms being ONE
